@@ -587,6 +587,67 @@ def r4_8(ctx, rc):
                   'BuildDirs.error_building_file')
 
 
+def r4_9(ctx, rc):
+    """A directory whose outputs all failed disappears from the view only
+    if somebody owns it (R9.6)."""
+    from .c09 import r9_6
+    r9_6(ctx, rc)
+
+
+def r4_10(ctx, rc):
+    """Verdict/memo agreement of the removed-directory scan: the scan takes
+    the directory out of the "maybe removed" set, so its answer is only
+    stable if "removed" is memoised in the set the query consults first - a
+    True that is not recorded is answered False by the next query for the
+    same path (two queries disagree)."""
+    from ..astpaths import cond_paths
+    prog = ctx.prog
+    Qf = ctx.E.func('BuildDirs.is_removed_norm_case')
+    memo = None
+    scan = None
+    for conds, st in cond_paths(Qf.node.body):
+        if not isinstance(st, ast.Return) or st.value is None:
+            continue
+        if isinstance(st.value, ast.Constant) and st.value.value is True:
+            for t, pol in conds:
+                if pol and isinstance(t, ast.Compare) and len(t.ops) == 1 \
+                        and isinstance(t.ops[0], ast.In) and isinstance(
+                            t.comparators[0], ast.Attribute):
+                    memo = t.comparators[0].attr
+        elif isinstance(st.value, ast.Call):
+            for g in prog.resolve_call(st.value, Qf):
+                if isinstance(g, Func) and g.cls == Qf.cls:
+                    scan = g
+    if memo is None or scan is None:
+        raise AnalysisError('removed-directory memo / scan not identified '
+                            'in ' + Qf.qualname)
+    sg = ctx.E.super(scan, lambda g: False)
+    p = scan.params[0] if scan.params else None
+
+    def records(x):
+        if x.kind != 'ret' or x.call is None:
+            return False
+        f = x.call.func
+        return (isinstance(f, ast.Attribute) and f.attr == 'add' and
+                isinstance(f.value, ast.Attribute) and f.value.attr == memo
+                and x.call.args and isinstance(x.call.args[0], ast.Name) and
+                x.call.args[0].id == p)
+    w = Q.first_unguarded(sg, [sg.entry], records,
+                          lambda x: x.id == sg.exits['T'])
+    key = 'scan verdict "removed" is memoised in .%s' % memo
+    if w:
+        rc.violation(
+            'verdict-not-memoised | ' + scan.qualname,
+            '%s can answer "removed" without recording the directory in '
+            '.%s: it has left the maybe-removed set, so the next query for '
+            'the same path answers "present" (exists/is_dir/list_dir '
+            'disagree with each other and with later calls)' % (
+                scan.qualname, memo), prog.loc(scan, scan.node),
+            sg.describe_path(w), key=key)
+    else:
+        rc.ok({'scan': scan.qualname, 'memo': memo}, key=key)
+
+
 RULES = [
     ('R4.1', 'exists == is_file or is_dir (abstract evaluation)', r4_1),
     ('R4.2', 'one kernel decides the type of a path', r4_2),
@@ -596,4 +657,7 @@ RULES = [
     ('R4.6', 'reused subtrees reserve only successful outputs', r4_6),
     ('R4.7', 'removed-directory knowledge is never dropped wholesale', r4_7),
     ('R4.8', 'release walk is the inverse of the reserve walk', r4_8),
+    ('R4.9', 'a concurrently created directory keeps an owner', r4_9),
+    ('R4.10', 'a "removed" verdict of the directory scan is memoised',
+     r4_10),
 ]
